@@ -600,12 +600,33 @@ func c19Workspace(res *core.Result, r gen.R, p c19Case, env *core.Env, fail func
 		}
 		t = append(t, n)
 	}
-	maxLink := 4095
-	if format == "iso" {
-		maxLink = 1000
-	}
-	for i, tgt := range symTargets(r, maxLink) {
+	for i, tgt := range symTargets(r, 4095) {
 		t = append(t, TNode{Path: fmt.Sprintf("link%02d", i), Link: tgt})
+	}
+	if p.Farm && format == "iso" {
+		// entries whose Rock Ridge fields need no, one or several continuation areas, next to each other in one
+		// directory: long names (the name alone leaves the record), long targets, both
+		t = append(t, TNode{Path: "ce", Dir: true})
+		tl := []int{30, 150, 700, 1800, 1950, 2100, 3000, 4000}
+		for i := 0; i < 24; i++ {
+			l := tl[(i*5+r.Intn(2))%len(tl)]
+			var sb strings.Builder
+			for sb.Len() < l {
+				fmt.Fprintf(&sb, "c%02d%s/", i, strings.Repeat(string(rune('a'+(i+sb.Len())%26)), 10+r.Intn(60)))
+			}
+			tgt := strings.TrimSuffix(sb.String()[:l], "/") + "e"
+			tgt = strings.ReplaceAll(tgt, "//", "/x")
+			name := fmt.Sprintf("ce/k%02d", i)
+			if i%3 != 2 {
+				name += "_" + strings.Repeat(string(rune('A'+i%26)), 120+r.Intn(100))
+			}
+			if i%5 == 3 {
+				t = append(t, TNode{Path: name, Size: 100 + i, Seed: uint64(9000 + i), Mode: 0o640, UID: 5 + i, GID: 6 + i, MTime: times[i%len(times)]})
+			} else {
+				t = append(t, TNode{Path: name, Link: tgt})
+			}
+		}
+		res.Mark("iso directory of entries with no, one and several continuation areas")
 	}
 	if p.Farm && format == "squashfs" {
 		t = append(t, TNode{Path: "links", Dir: true}, TNode{Path: "owners", Dir: true})
@@ -728,10 +749,10 @@ func init() {
 	core.Register(&core.Check{
 		ID:          "C19",
 		Level:       "exploration",
-		Rule:        "ext4: files, directories and symlinks (targets 1,2,59,60,61,100,255,1000 bytes, relative and absolute) receive seeded sequences of Chmod (all 12 bits incl. setuid/setgid/sticky), Chown (ids 0..2^32-1), Chtimes (creation, access and modification time, 1901..2446) interleaved with content writes through fresh handles and through handles that were opened before later attribute changes (growing the file and overwriting inside it); every path is re-verified live, after ext4.Read of the image, and against `debugfs stat` as a second opinion. FAT12/16/32: Chtimes (1980..2107, odd seconds) and SetHidden/SetSystem/SetReadOnly/SetArchiveBit interleaved with content writes, verified live and after re-open. squashfs also with a farm of 400 symlinks (targets 40..239 bytes) and 1300 files with pairwise different owners and groups (inode and id tables spanning several metadata blocks); squashfs and Rock Ridge ISO: workspace files with modes over all 12 bits, owners over the 16/32-bit range, mtimes across each format's range and symlink targets up to 4095 (ISO: 1000) bytes are finalized and every path is verified through Stat/Sys/Readlink on the re-opened image: attributes unchanged, changing one attribute changes nothing else, kinds never confused. Non-trivial = a case whose attributes were verified; distinct = distinct attribute assignment",
+		Rule:        "ext4: files, directories and symlinks (targets 1,2,59,60,61,100,255,1000 bytes, relative and absolute) receive seeded sequences of Chmod (all 12 bits incl. setuid/setgid/sticky), Chown (ids 0..2^32-1), Chtimes (creation, access and modification time, 1901..2446) interleaved with content writes through fresh handles and through handles that were opened before later attribute changes (growing the file and overwriting inside it); every path is re-verified live, after ext4.Read of the image, and against `debugfs stat` as a second opinion. FAT12/16/32: Chtimes (1980..2107, odd seconds) and SetHidden/SetSystem/SetReadOnly/SetArchiveBit interleaved with content writes, verified live and after re-open. squashfs also with a farm of 400 symlinks (targets 40..239 bytes) and 1300 files with pairwise different owners and groups (inode and id tables spanning several metadata blocks); squashfs and Rock Ridge ISO: workspace files with modes over all 12 bits, owners over the 16/32-bit range, mtimes across each format's range and symlink targets up to 4095 bytes are finalized (ISO also with a directory of 24 links and files whose names of up to 220 bytes and targets of 30..4000 bytes need no, one or several continuation areas, side by side) and every path is verified through Stat/Sys/Readlink on the re-opened image: attributes unchanged, changing one attribute changes nothing else, kinds never confused. Non-trivial = a case whose attributes were verified; distinct = distinct attribute assignment",
 		Assumptions: []string{"times are compared at each format's resolution (FAT 2 s)", "the sandbox runs as root, so arbitrary owners can be put on workspace files"},
 		MinSigs:     map[string]int{"quick": 12, "thorough": 300},
-		NeedMarks:   []string{"format ext4", "content write through a handle opened before an attribute change", "squashfs symlink and owner farm", "format fat12", "format fat32", "format squashfs", "format iso-rr"},
+		NeedMarks:   []string{"format ext4", "content write through a handle opened before an attribute change", "squashfs symlink and owner farm", "format fat12", "format fat32", "format squashfs", "format iso-rr", "iso directory of entries with no, one and several continuation areas"},
 		CPUSec:      600,
 		Cases: func(seed int64, tier string) []core.Case {
 			r := gen.New(seed ^ 0xC19)
@@ -746,6 +767,7 @@ func init() {
 				}
 				if rep == 0 || rep%20 == 19 {
 					cs = append(cs, core.MkCase(fmt.Sprintf("squashfs-farm-%d", rep), "attrs-squashfs", r.Int63(), c19Case{FS: "squashfs", N: 10, Farm: true}))
+					cs = append(cs, core.MkCase(fmt.Sprintf("iso-ce-farm-%d", rep), "attrs-iso-rr", r.Int63(), c19Case{FS: "iso-rr", N: 6, Farm: true}))
 				}
 			}
 			return cs
